@@ -52,7 +52,7 @@ def run_check(prop: str, tier: str, seed: int) -> int:
         try:
             mod.check(ctx)
         except AnalysisError as e:
-            if not any(o.status == "violated" for o in ctx.obligs):
+            if not ctx.has_new_violation():
                 raise
             # a positive finding stands even if later rules could not be evaluated
             ctx.notes.append(f"remaining rules not evaluated: {e}")
